@@ -23,6 +23,21 @@ def c01_random(ctx, n_core, n_ext):
                     else:
                         ann["redirect-from"] = "old-%s" % sorted(hosts)[0]
         hs.append(h)
+    # IngressClass parameters: a ConfigMap of the controller's namespace gives defaults to the ingresses of the class
+    for i in range(max(20, n_ext // 12)):
+        vals = ["leastconn", "first", "roundrobin"]
+        cm = lambda v: dict(kind="cm", name="ingress/params", data={"balance-algorithm": v, "timeout-server": "3%ds" % len(v)})
+        steps = [dict(ops=U.base_ops() + [cm(rng.choice(vals)), dict(kind="class", name="haproxy", controller="haproxy-ingress.github.io/controller", params="params"),
+                                          U.op_ing(1, rng.choice(["t1", "t4", "t6"]), klass="haproxy"), U.op_ing(2, rng.choice(["t2", "t9"]))])]
+        for k in range(2 + rng.randrange(3)):
+            r = rng.random()
+            if r < 0.5:
+                steps.append(dict(ops=[cm(rng.choice(vals))]))
+            elif r < 0.7:
+                steps.append(dict(ops=[U.op_ing(rng.choice([1, 2, 3]), rng.choice(["t1", "t2", "t4"]), klass=rng.choice(["haproxy", None]))]))
+            else:
+                steps.append(dict(ops=[U.op_eps(rng.choice(["s1", "s2"]), rng.choice(["e1", "e2", "e4"]))]))
+        hs.append(dict(id="pm-%d" % i, opt=dict(shards=0, watchwithoutclass=True), steps=steps))
     # tcp services sharing a port between a host-less ingress and SNI hostnames
     hs += [U.random_tcp_history(rng, "rt-%d" % i, steps=4 + rng.randrange(3)) for i in range(max(60, n_ext // 4))]
     return hs
